@@ -56,7 +56,7 @@ def run_shard(spec, tier, seed):
     def is_vec_array(x):
         return type(x) is cls
 
-    for shape in ((6,), (2, 3), (2, 3, 2)):
+    for shape, field_order in (((6,), "canonical"), ((2, 3), "canonical"), ((2, 3, 2), "canonical"), ((6,), "reversed"), ((2, 3), "rotated")):
         n = int(numpy.prod(shape))
         rows = []
         while len(rows) < n:
@@ -66,9 +66,18 @@ def run_shard(spec, tier, seed):
             except R.NotRepresentable:
                 pass
         rows[0] = tuple(-0.0 if i == 0 else c for i, c in enumerate(rows[0]))
-        arr = B.mk_numpy_cls(system, rows, mom, shape)
+        if field_order == "canonical":
+            arr = B.mk_numpy_cls(system, rows, mom, shape)
+        else:
+            # the same records with the fields laid out in another order (e.g. ROOT-style E, px, py, pz): everything
+            # is addressed by name, so nothing may depend on the position of a field
+            onames = list(reversed(names)) if field_order == "reversed" else list(names[1:]) + [names[0]]
+            raw = numpy.zeros(n, dtype=[(nm, numpy.float64) for nm in onames])
+            for i, nm in enumerate(names):
+                raw[nm] = [row[i] for row in rows]
+            arr = raw.reshape(shape).view(cls)
         plain = numpy.asarray(arr).view(numpy.ndarray).copy()
-        key = f"{sn}|{fl}|{shape}"
+        key = f"{sn}|{fl}|{shape}|{field_order}"
 
         # ---------------- integer (tuple) indexing -> object vector
         for idx in numpy.ndindex(*shape):
